@@ -37,13 +37,16 @@ var Profiles = map[string]Profile{
 	"snap": {Name: "snap", Tick: 2, Step: 8, Ready: 12, Deliver: 12, Redeliver: 1, Drop: 0.3, Propose: 3, Conf: 0.2, Apply: 5,
 		Crash: 0.05, CrashMid: 0.08, Restart: 1.5, Compact: 1.5, Transfer: 0.1, SnapRep: 2, Unreach: 0.2, ReadIndex: 0.03, Partition: 0.3, Heal: 0.25,
 		PNoMore: 0.05, PBusy: 0.05, PRndZero: 0.2, PAll: 0.75, MaxConf: 4},
+	"paging": {Name: "paging", Tick: 3, Step: 8, Ready: 12, Deliver: 12, Redeliver: 1, Drop: 0.3, Propose: 4, Conf: 1.2, Apply: 1.2,
+		Crash: 0.05, CrashMid: 0.08, Restart: 1.5, Compact: 0.3, Transfer: 0.15, SnapRep: 1, Unreach: 0.05, ReadIndex: 0.03, Partition: 0.25, Heal: 0.4,
+		PNoMore: 0.25, PBusy: 0.02, PRndZero: 0.5, PAll: 0.75, MaxConf: 10},
 	"stale": {Name: "stale", Tick: 5, Step: 8, Ready: 10, Deliver: 8, Redeliver: 4, Drop: 0.2, Propose: 2, Conf: 0.1, Apply: 3,
 		Crash: 0.06, CrashMid: 0.08, Restart: 1.5, Compact: 0.3, Transfer: 0.4, SnapRep: 1, Unreach: 0.1, ReadIndex: 0.03, Partition: 0.6, Heal: 0.4,
 		PNoMore: 0.03, PBusy: 0.02, PRndZero: 0.4, PAll: 0.7, MaxConf: 3},
 }
 
 // ProfileNames in a fixed order (for seeded selection).
-var ProfileNames = []string{"steady", "elect", "crashy", "conf", "snap", "stale", "uniform"}
+var ProfileNames = []string{"steady", "elect", "crashy", "conf", "snap", "stale", "paging", "uniform"}
 
 // Gen is the seeded scheduler.
 type Gen struct {
@@ -239,7 +242,15 @@ func (g *Gen) next() (Event, bool) {
 	case "_part":
 		ids := c.IDs()
 		a := ids[g.R.Intn(len(ids))]
-		if g.R.Intn(2) == 0 {
+		if lv, ok := g.leaderWithLearners(); ok && g.R.Intn(2) == 0 {
+			// cut a leader off from every voter, keep its links to the learners
+			for _, b := range lv.Voters {
+				if b != lv.ID {
+					g.blocked[[2]uint64{lv.ID, b}] = true
+					g.blocked[[2]uint64{b, lv.ID}] = true
+				}
+			}
+		} else if g.R.Intn(2) == 0 {
 			// isolate a completely
 			for _, b := range ids {
 				if b != a {
@@ -264,6 +275,9 @@ func (g *Gen) next() (Event, bool) {
 		g.deliv[ev.M]++
 	case "propose":
 		ev.P = c.NewPayload()
+		if c.Opt.MaxCommitted != 0 {
+			ev.Pad = []int{0, 40, 100, 140, 150, 160, 300}[g.R.Intn(7)]
+		}
 	case "conf":
 		g.nconf++
 		if ev.CC == "remove" {
@@ -271,6 +285,16 @@ func (g *Gen) next() (Event, bool) {
 		}
 	}
 	return ev, true
+}
+
+func (g *Gen) leaderWithLearners() (NodeView, bool) {
+	for _, id := range g.C.IDs() {
+		v := g.C.View(id)
+		if v.Alive && v.Role == 2 && len(v.Learners) > 0 && len(v.Voters) > 1 {
+			return v, true
+		}
+	}
+	return NodeView{}, false
 }
 
 func (g *Gen) confEvent(tgt uint64, tv NodeView, views map[uint64]NodeView) (Event, bool) {
@@ -352,6 +376,11 @@ func RandomOptions(r *rand.Rand, storage string) Options {
 	}
 	if r.Intn(2) == 0 {
 		o.MaxSizePerMsg = math.MaxUint64
+	}
+	if r.Intn(4) == 0 {
+		// pagination of the hand-out: a small MaxCommittedSizePerReady with payloads around it
+		o.MaxSizePerMsg = math.MaxUint64
+		o.MaxCommitted = []uint64{150, 200, 400}[r.Intn(3)]
 	}
 	o.ElectionTick = []int{2, 3, 3, 5, 10}[r.Intn(5)]
 	o.HeartbeatTick = 1
